@@ -137,6 +137,17 @@ mzd_t *mzd_from_png(const char *fn, int verbose) {
     goto from_png_destroy_read_struct;
   }
 
+  if (bit_depth != 1) {
+    /* the row buffer below holds one bit per pixel */
+    if (verbose) printf("only images with bit depth 1 are supported.\n");
+    goto from_png_destroy_read_struct;
+  }
+
+  if (m > 0x7fffffffUL - m4ri_radix || n > 0x7fffffffUL - m4ri_radix) {
+    if (verbose) printf("image dimensions are too large.\n");
+    goto from_png_destroy_read_struct;
+  }
+
   A                      = mzd_init(m, n);
   const word bitmask_end = A->high_bitmask;
   png_bytep row          = m4ri_mm_calloc(sizeof(char), n / 8 + 1);
@@ -319,6 +330,12 @@ mzd_t *mzd_from_jcf(const char *fn, int verbose) {
     goto from_jcf_close_fh;
   }
 
+  if (m < 0 || n < 0) {
+    if (verbose) printf("Negative dimensions %d x %d\n", m, n);
+    retval = 1;
+    goto from_jcf_close_fh;
+  }
+
   if (verbose)
     printf("reading %lu x %lu matrix with at most %ld non-zero entries (density at most: %6.5f)\n",
            (unsigned long)m, (unsigned long)n, (unsigned long)nonzero,
@@ -330,9 +347,11 @@ mzd_t *mzd_from_jcf(const char *fn, int verbose) {
   long j = 0;
 
   while (fscanf(fh, "%ld\n", &j) == 1) {
-    if (j < 0) { i++, j = -j; }
-    if (((j - 1) >= n) || (i >= m))
-      m4ri_die("trying to write to (%ld,%ld) in %ld x %ld matrix\n", i, j - 1, m, n);
+    if (j < 0) { i++; }
+    /* column indices are one-based, a row starts with a negated index */
+    if (j == 0 || j > n || j < -(long)n || i < 0 || i >= m)
+      m4ri_die("trying to write to (%ld,%ld) in %ld x %ld matrix\n", i, j, (long)m, (long)n);
+    if (j < 0) { j = -j; }
     mzd_write_bit(A, i, j - 1, 1);
   };
 
